@@ -4,9 +4,54 @@ import json, subprocess
 
 BUILT = {
  # id: (technique, level text, level note, design ref)
+ "C01": ("reference-model monitor over generated operation histories (state-machine oracle folded over ground-truth labels)",
+         "Runs the real parser + composer + applier over systematically invalidated histories (every template position x every labelled failure class) and random histories, and compares every field of every returned state with an independent Sidetree state machine and patch model. Exploration: holds on the histories listed in the evidence.",
+         "Trusts the harness state machine / patch model (written from the property text), Go crypto for signing; labels are known by construction.", "DESIGN.md §2 C01"),
+ "C02": ("labelled-tampering monitor: one tampering per operation, expected verdict from the label, full state comparison",
+         "Every tampering class of the property (all signature bits, unsigned payload edits, key / reveal / delta substitution, header and algorithm changes, compact-form surgery) x 3 operation types x 4 key types is applied to a valid operation and executed against a valid previous state; refused / degraded / applied and the resulting state must match the model.",
+         "Assumes signature unforgeability (a tampered signature is invalid); harness state machine.", "DESIGN.md §2 C02"),
+ "C03": ("reference-codec monitor + metamorphic relations over generated create requests",
+         "Suffix and id of every accepted create are recomputed with an independent JCS/multihash codec; 8 re-serializations must keep the DID, 11 kinds of single-field modification must change it or be refused; four algorithm configurations.",
+         "Harness JCS / multihash codec (C05/C06 oracles).", "DESIGN.md §2 C03"),
+ "C04": ("reference-formula monitor over keys and generated operation chains",
+         "Reveal / commitment / commitment-from-reveal of keys of all five types compared with the reference formulas, single-member perturbations must change commitments, and every link of generated chains create -> (update|recover)* -> deactivate is checked through the parser's GetRevealValue / GetCommitment.",
+         "Harness JCS / multihash codec; SHA-2 from the Go standard library.", "DESIGN.md §2 C04"),
  "C05": ("reference-model monitor over generated inputs (exact RFC 8785 / ES6 oracle)",
-         "Runs the real canonicalizer on 10^5 (quick) to 10^7 (thorough) generated numbers, strings and structured values in random spellings and compares every output byte with an independent RFC 8785 serializer whose number formatter uses exact rational arithmetic; also checks fixed point, value preservation and spelling independence. Exploration: holds on the executions listed in the evidence.",
+         "Runs the real canonicalizer on 10^5 (quick) to 10^7 (thorough) generated numbers, strings and structured values in random spellings and compares every output byte with an independent RFC 8785 serializer whose number formatter uses exact rational arithmetic; also checks fixed point, value preservation and spelling independence.",
          "Trusts encoding/json decoding, strconv.ParseFloat (correct rounding), math/big and the harness oracle (self-tested against RFC 8785 vectors on every run).", "DESIGN.md §2 C05"),
+ "C06": ("reference-codec monitor + metamorphic relations (re-spelling => same hash, modification => refusal) + labelled malformed encodings",
+         "Model hashes of generated values (Go values and raw bytes) are compared with an independent base64url/varint/multihash codec over reference JCS; validation must accept every re-spelling and refuse every single-point modification; every unsupported code and malformed encoding class must be rejected.",
+         "crypto/sha256, crypto/sha512; harness codec.", "DESIGN.md §2 C06"),
+ "C07": ("labelled-mutation monitor over requests x protocol configurations (accept iff no rule violated)",
+         "Valid requests of the four types and one labelled mutation per protocol rule are parsed outside batch mode; every size limit is probed at exact size / exact size - 1 by configuration and by whitespace padding; every algorithm / patch list loses one entry at a time; the accepted operation's type, suffix, id, bytes and anchor origin are compared with the request.",
+         "Labels known by construction; harness JCS for delta sizes.", "DESIGN.md §2 C07"),
+ "C08": ("end-to-end monitor: recorded client / builder requests parsed, anchored and applied, compared with the requested document (patch-model oracle)",
+         "Lifecycles built with the four request builders and with the Sidetree client (request function replaced by a recorder) must be accepted by the matching parser and yield the document, commitments and flags asked for; anchored form = reference canonical bytes and applies to the same state; the builder refusals named by the property are exercised.",
+         "Harness patch model / state machine; did-go and kms-go value types to feed the client.", "DESIGN.md §2 C08"),
+ "C09": ("exhaustive finite-grid monitor (from, until, t, type, delta) through the real applier + recording time validator",
+         "The complete (from, until, anchoring time) grid around every boundary for three operation types and four deltas is executed through the applier and compared with the one-line window predicate inside the full state model; every other numeric protocol limit is varied around the grid's times and must not move a verdict; the parser must hand (from, until') to a recording validator.",
+         "Harness state machine; window predicate from the statement.", "DESIGN.md §2 C09"),
+ "C10": ("reference-model monitor (patch-composition model incl. RFC 6902 evaluator) over generated documents and validated patch lists",
+         "Thousands of validated patch lists over all eight actions with colliding / overlapping / missing ids are applied by the real composer and compared with the left fold of the harness model; unique ids preserved. Mismatches that an emulation of three known json-patch v4.1.0 deviations reproduces exactly are reported as KNOWN-FINDING, anything else as VIOLATION.",
+         "Harness patch model and RFC 6902 evaluator (self-tested on RFC 6902 appendix A).", "DESIGN.md §2 C10, §3"),
+ "C11": ("invariant monitor at the observation point: protected members deep-equal before/after every validated ietf-json-patch",
+         "The complete single-operation grid (6 kinds x ~47 path spellings x ~47 from spellings) and random 2-3 operation sequences are validated and, when accepted, applied by the real composer; publicKey / service must be unchanged.",
+         "Deep JSON equality of the two members as the observable.", "DESIGN.md §2 C11"),
+ "C12": ("snapshot monitor: deep copy + reflect.DeepEqual of every input before/after Apply / ApplyPatches, (result, error) exclusivity",
+         "Every step of the C01 histories (all failure classes) and patch lists built to fail at the k-th patch on deeply nested documents are executed with structural snapshots of the previous model, the anchored operation, the document and the patch values.",
+         "reflect.DeepEqual over a reflection-based deep copy.", "DESIGN.md §2 C12"),
+ "C13": ("exhaustive labelled-matrix monitor (one mutation per documented constraint, full key-type x purpose matrix)",
+         "About 1000 labelled patches (every constraint boundary, in both add-* and replace contexts) plus random valid patches are validated by the real validator; the label gives the verdict.",
+         "Rule table transcribed from the statement.", "DESIGN.md §2 C13"),
+ "C14": ("round-trip monitor (document -> patches -> document, constructors -> validate -> bytes -> parse) over generated documents",
+         "Generated documents with arbitrary further members must survive PatchesFromDocument + ApplyPatches; every constructor output must validate and survive Bytes/FromBytes with agreeing accessors; labelled bad byte strings must be refused.",
+         "JSON numbers compared as doubles.", "DESIGN.md §2 C14"),
+ "C15": ("labelled-tampering monitor over signatures of all five key types (all bits of all three segments, other keys, malformed forms)",
+         "JWS produced by the library's signers must verify under the matching JWK with unchanged payload and fail under other keys, after any single-bit change of the decoded header / payload / signature, with wrong-length signatures, unsupported keys and malformed compacts; signatures with leading zero bytes in r/s are searched for on every EC curve.",
+         "Signature unforgeability; harness base64url codec.", "DESIGN.md §2 C15"),
+ "C16": ("round-trip + labelled-invalid-input monitor over constructed curve points (chosen leading-zero coordinates)",
+         "Public points with 0..3 leading zero bytes in x (constructed by modular square root) and searched leading-zero y on all four curves plus Ed25519 keys: JWK export has the right kty/crv and full width, reads back to the same key; off-curve, wrong-width and curve-swapped JWKs must be rejected.",
+         "math/big and the curve parameters of crypto/elliptic / btcec.", "DESIGN.md §2 C16"),
 }
 ALL = ["C%02d" % i for i in range(1, 21)]
 checks = []
